@@ -727,9 +727,13 @@ impl Transaction {
             });
         }
 
-        self.propagate_governance().await?;
-        self.check_reference_closure().await?;
-        self.check_concept_key_identity().await?;
+        // A refusal found here is still a refusal: nothing has been written
+        // yet except the shells, and `self` is consumed, so nobody else can
+        // remove them afterwards.
+        if let Err(err) = self.check_before_write().await {
+            self.discard_shells().await;
+            return Err(err);
+        }
 
         // Nothing this transaction touched keeps its shell state, and the
         // version rule is applied here so that a clause touching one element
@@ -813,6 +817,15 @@ impl Transaction {
             changes,
             warnings: self.warnings,
         })
+    }
+
+    /// The checks only the whole transaction can answer, run before the first
+    /// durable write of a commit.
+    async fn check_before_write(&mut self) -> Result<(), KipError> {
+        self.propagate_governance().await?;
+        self.check_reference_closure().await?;
+        self.check_concept_key_identity().await?;
+        Ok(())
     }
 
     /// Abandons everything staged, removing the shells this run minted.
